@@ -568,7 +568,7 @@ bool Instance::configure_tx_txin() {
 
     parse_stack_args(push_del);
     while (!push_del.empty()) {
-        delete push_del.back();
+        free((void*)push_del.back());
         push_del.pop_back();
     }
 
